@@ -26,4 +26,38 @@ CHECKS = {
         assumptions=["directories passed to WalkName/CreateName are canonical internal paths, as the property states",
                      "the reference resolver in harness/paths is correct (written from the property text)"],
     ),
+    "C01": dict(
+        pkg="wire",
+        level="exploration",
+        groups=[
+            G("^TestC01_Msg$", 300, 5000),
+            G("^TestC01_Dir$", 1000, 10000),
+        ],
+        fuzz=[("FuzzDecodeVsRef", 60)],
+        rule="one rapid sub-property per message kind (27 kinds iterated, not drawn) with boundary-biased fields (0/1/max integers, NOTAG/NOFID, "
+             "empty / non-UTF-8 / NUL / 255-256-byte / (thorough) 65535-byte strings, lists of 0,1,16,17,..,(thorough) 65535 elements, data up to "
+             "(thorough) 3 MiB, stat records up to 65535 bytes, times in three locations) plus stand-alone Dir/Qid and EncodeDir/DecodeDir. Oracle: "
+             "bytes equal an independent reference encoder written from the manual (refwire), Size == len, decode(library bytes) == decode(reference "
+             "bytes) == original. Non-trivial = not the zero value of its kind; distinct = distinct (kind, case) by 64-bit hash of the case JSON.",
+        require_classes=dict(quick=["kind_" + k for k in "Tversion Rversion Tauth Rauth Tattach Rattach Rerror Tflush Rflush Twalk Rwalk Topen Ropen Tcreate Rcreate Tread Rread Twrite Rwrite Tclunk Rclunk Tremove Rremove Tstat Rstat Twstat Rwstat".split()],
+                             thorough=["has_maxlen_string", "list_65535", "data_1MiB"]),
+        assumptions=["refwire (harness/internal/refwire) is a correct reading of intro(5)/stat(5)",
+                     "messages are value types inside *Fcall, as every caller in the repository builds them"],
+    ),
+    "C04": dict(
+        pkg="wire",
+        level="exploration",
+        groups=[
+            G("^TestC04_Untrusted$", 20000, 100000),
+            G("^TestC04_(Corpus|AllocRatio)$", 1, 1, shard=False),
+        ],
+        fuzz=[("FuzzUnmarshal", 90), ("FuzzDecodeDir", 60)],
+        rule="valid encoding of a random message of any kind (or of a stat record for DecodeDir) with 1-3 mutations: any length/count field "
+             "(located by the reference encoder's field map) overwritten with a hostile constant / true value +-1 / random, truncation at any point, "
+             "appended bytes, changed type byte (incl. 106 and out-of-range), single byte flips; 10% unstructured random bytes; plus a deterministic "
+             "corpus of every kind x every length field x 8 hostile constants. Oracle: no panic; TotalAlloc delta <= 256 KiB + 96*len(input) (re-measured, "
+             "minimum of 3); on success decode(encode(v)) == v. Non-trivial = input differs from the valid encoding and is longer than 3 bytes.",
+        assumptions=["allocation is measured with runtime.MemStats.TotalAlloc around the single decode call, in a process that runs nothing else",
+                     "the bound 256 KiB + 96*len is the weakest reading of 'small constant plus linear'; TestC04_AllocRatio re-validates on every run that the densest valid inputs (ratio ~26) stay inside it"],
+    ),
 }
